@@ -191,6 +191,8 @@ type simLedger struct {
 	// node's other goroutines cannot decide the order of events (it did, and made crash-trigger runs
 	// depend on machine load: determinism self-test under load).
 	gates []chan struct{}
+	// lateGates: see newSimPool
+	lateGates []chan struct{}
 }
 
 func newSimLedger(s *Sim, n *Node) *simLedger {
@@ -286,7 +288,19 @@ func (l *simLedger) openGate() bool {
 func (l *simLedger) dropGates() {
 	l.mu.Lock()
 	l.gates = nil
+	l.lateGates = nil
 	l.mu.Unlock()
+}
+
+func (l *simLedger) openLateGate() bool {
+	l.mu.Lock()
+	defer l.mu.Unlock()
+	if len(l.lateGates) == 0 {
+		return false
+	}
+	close(l.lateGates[0])
+	l.lateGates = l.lateGates[1:]
+	return true
 }
 
 func (l *simLedger) pendingFlush() bool {
@@ -638,12 +652,28 @@ type simPool struct {
 	once sync.Once
 }
 
-func newSimPool() *simPool {
+// newSimPool: the single FIFO worker behind the service's vote/bundle/payload verification. With lateFor set
+// ("persist first" runs of C02) the worker starts a task only after the scheduler has opened a LATE gate, and late
+// gates are opened only when no persist is waiting: a node's persists then complete BEFORE the votes they
+// protect have even been verified - the other legal order of the two concurrent activities (by default the
+// votes are ready first and wait for the persist).
+func newSimPool(lateFor *simLedger) *simPool {
 	p := &simPool{ch: make(chan poolTask, 64), quit: make(chan struct{})}
 	go func() {
 		for {
 			select {
 			case t := <-p.ch:
+				if lateFor != nil {
+					c := make(chan struct{})
+					lateFor.mu.Lock()
+					lateFor.lateGates = append(lateFor.lateGates, c)
+					lateFor.mu.Unlock()
+					select {
+					case <-c:
+					case <-p.quit:
+						return
+					}
+				}
 				r := t.f(t.arg)
 				if t.out != nil {
 					select {
